@@ -727,7 +727,7 @@ func main() {
 		r.Rule = "seeded histories of Write/Read/SetLimitCount/SetLimitSize/Close, steered by the live ring layout (packet ends aimed at ring end +-2, room to the limit aimed at -1/0/+1); oracle = FIFO of byte slices + count/size/limit model compared after every op; distinct = (ring capacity, header/payload position relative to ring end, growth, limit-approach) cells reached"
 		n := 2000
 		if *tier == "thorough" {
-			n = 5000
+			n = 96000
 		}
 		n /= *nshard
 		seen := map[string]int{}
@@ -753,7 +753,7 @@ func main() {
 		r.Rule = "concurrent histories (1-3 writers x 1-3 readers, unique packet ids, Close early or late) recorded at the API boundary with one atomic logical clock; oracle = porcupine linearizability against queue+closed model, plus byte-exact payload check; distinct = distinct operation orders (hash of the recorded return order)"
 		n := 6000
 		if *tier == "thorough" {
-			n = 15000
+			n = 96000
 		}
 		n /= *nshard
 		mdl := queueModel()
